@@ -424,6 +424,15 @@ def run(ctx, chk):
              "early way out for a block the item already holds - and obtain or release no memory (what is serialized is the payload and length last attached)")
     import rules as _rsh
     _rsh.check_set_handle(chk, "C03.set-handle", prog, eff)
+    chk.rule("C03.narrowing", "no 64-bit quantity is converted to a narrower integer type except to take one byte of it or below a range test that makes "
+             "the conversion lossless (the head, the space test and the copy all use the item's whole length; shared with C02.narrowing)")
+    import rules as _rnw2
+    _rnw2.check_narrowing(chk, "C03.narrowing", prog, eff=eff)
+    chk.rule("C03.decoded-payload", "what is loaded back is what was written: the string builders copy exactly the `length` payload bytes the decoder "
+             "claimed - not a prefix, not one more (shared with C01.payload-copy)")
+    import ownership as _Opc
+    _npc = DR.payload_reads(chk, "C03.decoded-payload", prog, eff, _Opc.PathCache(prog, eff))
+    chk.floor("C03.decoded-payload", "payload reads in the string builders", _npc, 2)
     chk.exhaustive = True
 
 
